@@ -651,6 +651,12 @@ func castArr(opts *options, v value) ([]value, Error) {
 		return sub.c.fields.array(), nil
 	}
 	if ref, ok := v.(*cfgDynamic); ok {
+		// the references followed here are active (for the detection of cycles)
+		// while this value is read only, another field can refer to them again
+		parentFields := opts.activeFields
+		opts.activeFields = newFieldSet(parentFields)
+		defer func() { opts.activeFields = parentFields }()
+
 		unrefed, err := ref.getValue(opts)
 		if err != nil {
 			return nil, raiseMissingMsg(ref.ctx.getParent(), ref.ctx.field, err.Error())
